@@ -101,6 +101,11 @@ def run_check(prop, plan, tier, seed, replay, t0):
         for r in results:
             if "error" in r:
                 problems.append(f"{r['name']}: {r['error']}")
+                if r.get("hang"):
+                    # non-termination on a concrete input: a failing input in its own right (the implementation neither
+                    # accepts nor rejects / never produces the value the property speaks of)
+                    res.oracle_fails.append(dict(line=r["hang"]["line"], directive="totality the implementation returns (terminates) on every op",
+                                                 op=r["hang"]["ops"][-1], got=f"no result within the per-op time limit ({r['hang']['profile']} build)", want="a result", ops=r["hang"]["ops"]))
                 continue
             res.evaluations += r["n_ops"]
             res.distinct |= r["distinct"]
@@ -113,6 +118,9 @@ def run_check(prop, plan, tier, seed, replay, t0):
             for d in r["oracle_fails"]: res.oracle_fails.append(dict(d, ops_path=r["ops_path"], chunk=r["name"]))
         # property-specific spec oracles (exact-arithmetic specs evaluated by the driver, etc.)
         hook = plan.get("extra")
+        if hook and any(r.get("hang") for r in results):
+            notes.append("property-specific oracles skipped: the implementation does not terminate on a generated op (reported as the failing input)")
+            hook = None
         if hook:
             hk = hook(prop, tier, seed, profiles)
             res.oracle_checked += hk.get("checked", 0)
@@ -121,6 +129,9 @@ def run_check(prop, plan, tier, seed, replay, t0):
             for k, v in hk.get("hist", {}).items(): res.hist[k] = res.hist.get(k, 0) + v
             notes += hk.get("notes", [])
             problems += hk.get("problems", [])
+        import pipeline as _P
+        for t in _P.TIMED_OUT:
+            if not any(t[:60] in pr for pr in problems): problems.append("run killed: " + t)
         if res.diffs:
             problems.append(f"correspondence broken: model and implementation disagree on {res.hist.get('DIFF', len(res.diffs))} ops (first: {res.diffs[0]['op'][:120]!r} impl={res.diffs[0]['impl'][:80]!r} model={res.diffs[0]['model'][:80]!r})")
         if res.profile_diffs and plan.get("profiles_must_agree", True):
